@@ -295,19 +295,21 @@ def _call_args(kind, pyname, o, a, kw):
             return "setitem_idx", _arec(k=K(k), v=V(v), idx=a[0]), [k], [V(v)]
         if type(a[0]) is int and hs:
             x = K(a[1])
-            cur = list(o)
-            i = a[0] + len(cur) if a[0] < 0 else a[0]
-            if any(j != i and y.lower() == x.lower() for j, y in enumerate(cur)):
-                raise Unrep("HeaderSet item assignment that duplicates another item")
             return "setitem_idx", _arec(k=x, idx=a[0]), [x], []
         if type(a[0]) is slice:
-            raise Unrep("slice assignment")
+            i, j = _slice_bounds(kind, a[0], o)
+            form, ent = _src(kind, a[1])
+            if form != "pairs":
+                raise Unrep("slice assignment of another iterable")
+            ks, vs = _entries_keys_vals(ent)
+            return "setitem_slice", dict(_arec(src=ent, form="pairs", idx=i), idx2=j), ks, vs
         return "setitem", _arec(k=K(a[0]), v=V(a[1])), [a[0]], [V(a[1])]
     if pyname == "__delitem__":
         if type(a[0]) is int and (hd or hs):
             return "delitem_idx", _arec(idx=a[0]), [], []
         if type(a[0]) is slice:
-            raise Unrep("slice deletion")
+            i, j = _slice_bounds(kind, a[0], o)
+            return "delitem_slice", dict(_arec(idx=i), idx2=j), [], []
         return "delitem", _arec(k=K(a[0])), [a[0]], []
     if pyname in ("add", "add_header"):
         if hs:
@@ -361,6 +363,18 @@ def _call_args(kind, pyname, o, a, kw):
     if pyname == "copy":
         return "copy", _arec(), [], []
     raise Unrep(f"method {pyname}")
+
+
+def _slice_bounds(kind, sl, o):
+    """h[i:j] of a Headers object with plain int / omitted bounds"""
+    if kind != "Headers" or sl.step is not None:
+        raise Unrep("slice with a step / on another kind")
+    n = len(o)
+    i = 0 if sl.start is None else sl.start
+    j = n + 1 if sl.stop is None else sl.stop
+    if type(i) is not int or type(j) is not int or abs(i) > 10**6 or abs(j) > 10**6:
+        raise Unrep("slice bounds of another type")
+    return i, j
 
 
 MUTATORS = {
